@@ -11,7 +11,10 @@ def ty_matches(tystr, enum_path):
     t = tystr.lstrip("&").replace("mut ", "").strip()
     t = t.split("<", 1)[0]
     tail = enum_path.split("::", 1)[1] if "::" in enum_path else enum_path
-    return t == enum_path or t == tail
+    if t == enum_path or t == tail:
+        return True
+    # foreign types are printed through their visible (re-exported) path: same crate and same final name
+    return "::" in t and t.split("::")[0] == enum_path.split("::")[0] and t.rsplit("::", 1)[1] == enum_path.rsplit("::", 1)[1]
 
 
 class Switch:
